@@ -303,17 +303,20 @@ class CFG:
         return out
 
     def loop_body_ids(self, head: Node) -> Set[int]:
-        """nodes of the natural loop of `head` (reach head again without leaving)"""
+        """nodes that belong syntactically to the body of the loop statement of `head` (incl. its test nodes
+        for while loops), i.e. one iteration's worth of nodes; raise/return statements inside the body included"""
         body = set()
-        starts = [m for m, l in head.succ if l in ("iter", None, "T")]
-        if isinstance(head.ast, ast.While):
-            starts = [m for m, l in head.succ]
-        # nodes from which head is reachable, and reachable from loop entry edges without passing head
-        fwd = self.reachable_from(starts, avoid={head.id})
-        for i in fwd:
-            n = self.nodes[i]
-            if head.id in self.reachable_from([n], avoid=set()) and self._within(n, head):
-                body.add(i)
+        stmt = head.ast
+        inside = set()
+        for part in stmt.body:
+            for x in ast.walk(part):
+                inside.add(id(x))
+        if isinstance(stmt, ast.While):
+            for x in ast.walk(stmt.test):
+                inside.add(id(x))
+        for n in self.nodes:
+            if n.ast is not None and id(n.ast) in inside:
+                body.add(n.id)
         return body
 
     def _within(self, n: Node, head: Node) -> bool:
